@@ -6,7 +6,8 @@ not registered in MANIFEST.json."""
 import json, os, re, subprocess, sys
 root = os.path.dirname(os.path.dirname(os.path.abspath(__file__)))
 names = sys.argv[1:] or sorted(os.listdir(os.path.join(root, "seeded")))
-env = dict(os.environ, GOFLAGS="-mod=mod", GOPROXY="off")
+# scratch worktrees compile the whole module under a new path each time: keep that out of the shared build cache
+env = dict(os.environ, GOFLAGS="-mod=mod", GOPROXY="off", GOCACHE="/var/tmp/gocache-mt")
 missed = []
 for name in names:
     d = os.path.join(root, "seeded", name)
@@ -30,8 +31,8 @@ for name in names:
             missed.append(name)
     finally:
         subprocess.run(["git", "-C", "/repo", "worktree", "remove", "--force", w], capture_output=True)
-        sz = subprocess.run("du -s /root/.cache/go-build | awk '{print int($1/1048576)}'", shell=True, capture_output=True, text=True).stdout.strip()
-        if sz.isdigit() and int(sz) > 40:
-            subprocess.run(["go", "clean", "-cache"], env=env, capture_output=True)
+        sz = subprocess.run("du -s /var/tmp/gocache-mt 2>/dev/null | awk '{print int($1/1048576)}'", shell=True, capture_output=True, text=True).stdout.strip()
+        if sz.isdigit() and int(sz) > 25:
+            subprocess.run(["rm", "-rf", "/var/tmp/gocache-mt"])
 print("missed:", missed)
 sys.exit(1 if missed else 0)
